@@ -998,10 +998,26 @@ impl C16 {
                 // which is sampled for these sizes)
                 let n = rng.range(9, 12) as usize;
                 gen_matrix_n(&mut rng, n)
-            } else if rng.chance(1, 48) {
-                // far beyond: 13..24 (fixed-size buffers, 16-wide blocking)
+            } else if rng.chance(1, 24) {
+                // far beyond: 13..24 (fixed-size buffers, 16-wide blocking); half of
+                // them benign except for a nearly singular 2x2 block in the LAST rows
+                // and columns, so that the residual of the inverse lives there only
                 let n = rng.range(13, 24) as usize;
-                gen_matrix_n(&mut rng, n)
+                if rng.chance(1, 2) {
+                    let eps = exact::scale2(1.0, -(rng.range(25, 45) as i64));
+                    let e = sym_from_upper(n, &mut |i, j| {
+                        if i >= n - 2 && j >= n - 2 {
+                            if i == j { 1.0 } else { 1.0 - eps }
+                        } else if i == j {
+                            1.0
+                        } else {
+                            0.0
+                        }
+                    });
+                    MatCase { dim: n, entries: e, class: "ill_conditioned_tail_block".into() }
+                } else {
+                    gen_matrix_n(&mut rng, n)
+                }
             } else {
                 gen_matrix(&mut rng, 8)
             };
